@@ -217,20 +217,34 @@ def _shape_mod_flags(fname):
 
 
 def regex_file():
+    """two known shapes of the fallback when no rule list follows: `return False` (bare ignore-file does nothing) and
+    `return check_general_ignore(line)` (the repaired code); emitted as file_bare_general"""
     text, strs, ints = _shape_mod_flags("_check_specific_rule_ignore")
-    if text != _norm(SH_SPECIFIC_FILE).replace(", re.IGNORECASE)", ")") or ints != [1, 1]:
+    old = _norm(SH_SPECIFIC_FILE).replace(", re.IGNORECASE)", ")")
+    new = old.replace("    return False", "    return check_general_ignore(line)")
+    if text not in (old, new) or old == new or ints != [1, 1]:
         raise Unsupported(f"_check_specific_rule_ignore: unexpected shape\n{text}")
     s = _regex_sites("_check_specific_rule_ignore")
-    return _re_def("re_file_bracket", s[0], "bracket") + _re_def("re_file_space", s[1], "space")
+    return (_re_def("re_file_bracket", s[0], "bracket") + _re_def("re_file_space", s[1], "space")
+            + defn("file_bare_general", "bool", "true" if text == new else "false"))
+
+
+SH_LINE_TAIL_NEW = ("    code_lower = code.rstrip().lower()\n    return 'S' in code_lower or code_lower.endswith(('S', 'S'))")
 
 
 def regex_line():
+    """two known shapes of the fallback when no rule list follows: only the `ignore-all` test, or (repaired code) also
+    `the right-stripped lowered line ends with one of <suffixes>`; emitted as line_bare_suffixes ([] for the first shape)"""
     text, strs, ints = _shape_mod_flags("_check_specific_rule_in_line")
-    if text != _norm(SH_SPECIFIC_LINE).replace(", re.IGNORECASE)", ")") or ints != [1, 1]:
+    old = _norm(SH_SPECIFIC_LINE).replace(", re.IGNORECASE)", ")")
+    head = old[: old.index("    return 'S' in code.lower()")]
+    new = head + SH_LINE_TAIL_NEW
+    if text not in (old, new) or ints != [1, 1]:
         raise Unsupported(f"_check_specific_rule_in_line: unexpected shape\n{text}")
     s = _regex_sites("_check_specific_rule_in_line")
     return (_re_def("re_line_bracket", s[0], "bracket") + _re_def("re_line_space", s[1], "space")
-            + defn("ignore_all_needle", "string", coq_string(strs[2])))
+            + defn("ignore_all_needle", "string", coq_string(strs[2]))
+            + defn("line_bare_suffixes", "list string", coq_str_list(strs[3:] if text == new else [])))
 
 
 def regex_start():
@@ -293,11 +307,19 @@ def line_arith():
 
 
 def block_structure():
-    _, _, cmps = expect_shape(IGN, "_handle_block_end",
-                              "def _handle_block_end(line_num, violation, state):\n    if state.in_block and line_num < violation.line:\n"
-                              "        if rules_match_violation(state.rules, violation.rule_id):\n            return True\n"
-                              "    state.in_block = False\n    state.rules = set()\n    return None")
-    _cmp_pair(cmps, 1, "_handle_block_end")
+    # two known shapes: the end marker only closes the block (repaired code), or it first suppresses a matching violation
+    # located above it (the defect recorded as q_block_end_before); emitted as block_end_cmp : option cmp
+    text, _, _, cmps = shape(_fn(IGN, "_handle_block_end"))
+    sh_new = _norm("def _handle_block_end(line_num, violation, state):\n    state.in_block = False\n    state.rules = set()\n    return None")
+    sh_old = _norm("def _handle_block_end(line_num, violation, state):\n    if state.in_block and line_num < violation.line:\n"
+                   "        if rules_match_violation(state.rules, violation.rule_id):\n            return True\n"
+                   "    state.in_block = False\n    state.rules = set()\n    return None")
+    if text == sh_new and not cmps:
+        end_cmp = "None"
+    elif text == sh_old and len(cmps) == 1:
+        end_cmp = f"(Some {cmps[0]})"
+    else:
+        raise Unsupported(f"_handle_block_end no longer has a shape the model was written for:\n{text}")
     expect_shape(IGN, "_process_block_line",
                  "def _process_block_line(line, line_num, violation, state):\n    if has_ignore_start_marker(line):\n"
                  "        state.rules = _parse_ignore_start_rules(line)\n        state.in_block = True\n        return None\n"
@@ -321,7 +343,7 @@ def block_structure():
                  "def _is_ignored_at_file_level(self, file_path, rule_id, file_content):\n    if self.is_ignored(file_path):\n        return True\n"
                  "    if _has_file_ignore_in_content(file_content, rule_id):\n        return True\n    return self.has_file_ignore(file_path, rule_id)",
                  cls="IgnoreDirectiveParser")
-    return defn("block_end_cmp", "cmp", cmps[0]) + defn("block_first_line", "nat", str(ints[0]))
+    return defn("block_end_cmp", "option cmp", end_cmp) + defn("block_first_line", "nat", str(ints[0]))
 
 
 # ---------------------------------------------------------------- rule matcher
